@@ -67,7 +67,7 @@ pub fn marker_block(h: u64, n_extra_tx: usize, rng: &mut Rng) -> BlockDesc {
         version: 1,
         prev: None,
         merkle: None,
-        time: 1_300_000_000 + (h as u32).wrapping_mul(600),
+        time: 1_300_000_000u32.wrapping_add((h as u32).wrapping_mul(600)).max(1),
         bits: 0x1d00ffff,
         nonce: rng.next() as u32,
         auxpow: None,
